@@ -24,6 +24,7 @@
 #include "features.h"
 #include <janet.h>
 #include "gc.h"
+#include "fiber.h"
 #include "state.h"
 #include "util.h"
 #include "vector.h"
@@ -344,7 +345,9 @@ static Janet doframe(JanetStackFrame *frame) {
                 uint32_t pc = (uint32_t)(frame->pc - def->bytecode);
                 if (jsm.birth_pc == UINT32_MAX) {
                     JanetFuncEnv *env = frame->func->envs[jsm.death_pc];
-                    if (env->offset > 0) {
+                    if (!janet_env_valid(env) || jsm.slot_index >= (uint32_t) env->length) {
+                        /* Environment or index not usable (unmarshalled data), leave nil */
+                    } else if (env->offset > 0) {
                         value = env->as.fiber->data[env->offset + jsm.slot_index];
                     } else {
                         value = env->as.values[jsm.slot_index];
